@@ -46,7 +46,8 @@ def tlc_mc(module, cfg, work, workers=4, timeout=1500, simulate=None, want_repla
     untaken = []
     if not simulate:
         for mm in re.finditer(r'^<(\w+) line .*>: (\d+):(\d+)$', out, re.M):
-            if mm.group(1) not in ('Init',) and int(mm.group(3)) == 0:
+            # NextAfter (MC_Tls) is enabled only under the KeepRemaining deviation
+            if mm.group(1) not in ('Init', 'NextAfter') and int(mm.group(3)) == 0:
                 untaken.append(mm.group(1))
     import shutil
     shutil.rmtree(md, ignore_errors=True)
